@@ -88,6 +88,11 @@ K == [ uninit |-> Kd("main", "none", 0, "none"),
        subB   |-> Kd("sub",  "mem", 320, "np"),
        extB   |-> Kd("main", "other", 400, "ext"),
        dstB   |-> Kd("main", "dest", 288, "ext"),
+       \* nam*: external in a file with the SAME NAME as the destination data file but in a DIFFERENT
+       \* directory (a model loaded from A/m.onnx and saved as B/m.onnx).  What a tensor is backed by
+       \* is its resolved path, not its relative location: these are "other", they must be copied.
+       namB   |-> Kd("main", "other", 336, "ext"),
+       namS   |-> Kd("main", "other", 24, "ext"),
        edge   |-> Kd("main", "mem", 256, "np"),
        small  |-> Kd("main", "mem", 8, "np"),
        scalar |-> Kd("main", "mem", 8, "np"),
@@ -96,12 +101,12 @@ K == [ uninit |-> Kd("main", "none", 0, "none"),
        dstS   |-> Kd("main", "dest", 16, "ext") ]
 \* models are multisets: kinds are appended in this order (sizes deliberately NOT ascending, so
 \* that the size sort of the writer has something to do)
-KindOrder == <<"huge", "proto", "uninit", "uninitIn", "mid", "big", "subU", "subUIn", "subB", "extB", "dstB", "edge",
-               "small", "scalar", "zero", "extS", "dstS">>
+KindOrder == <<"huge", "proto", "uninit", "uninitIn", "mid", "big", "subU", "subUIn", "subB", "extB", "namB", "dstB", "edge",
+               "small", "scalar", "zero", "extS", "namS", "dstS">>
 Rank(k) == CHOOSE r \in 1..Len(KindOrder) : KindOrder[r] = k
 AllKinds == {KindOrder[r] : r \in 1..Len(KindOrder)}
-SmallMenu == {"uninit", "subU", "uninitIn", "subUIn", "proto", "mid", "subB", "extB", "dstB", "edge", "extS", "dstS", "huge"}
-ThirdMenu == {"huge", "proto", "extB", "dstB", "extS", "dstS"}
+SmallMenu == {"uninit", "subU", "uninitIn", "subUIn", "namB", "namS", "proto", "mid", "subB", "extB", "namB", "dstB", "edge", "extS", "dstS", "huge"}
+ThirdMenu == {"huge", "proto", "extB", "namB", "dstB", "extS", "dstS"}
 
 N == Len(inits)
 Idx == 1..N
